@@ -175,7 +175,7 @@ impl C03Deep {
             ("array-closed", "none"), ("array-open", "none"), ("object-closed", "none"), ("object-open", "none"), ("mixed-closed", "none"), ("wide-closed", "none"),
             ("array-closed", "garbage-after-root"), ("object-closed", "garbage-after-root"), ("array-closed", "outer-garbage"), ("mixed-closed", "outer-missing-colon"),
             ("array-closed", "wrong-closer"), ("object-closed", "end-out"), ("array-closed", "fail-out"), ("mixed-closed", "outer-fail"), ("object-closed", "outer-end"),
-            ("array-closed", "end-in"), ("object-closed", "fail-in"),
+            ("array-closed", "end-in"), ("object-closed", "fail-in"), ("array-closed", "fail-after-root"), ("object-closed", "ws-fail-after-root"), ("mixed-closed", "ws-garbage-after-root"),
         ];
         let depths_quick: &[u64] = &[1_000, 10_000, 100_000, 300_000];
         let depths_thorough: &[u64] = &[1_000, 10_000, 100_000, 300_000, 1_000_000, 2_000_000];
@@ -186,11 +186,26 @@ impl C03Deep {
         };
         let depth = if run == 0 { 1_000_000 } else if self.thorough { *rng.pick(depths_thorough) } else { *rng.pick(depths_quick) };
         let stack_kib = *rng.pick(&[64u64, 128, 256]);
-        let tail_at = match rng.below(4) { 0 => depth / 2, 1 => depth.saturating_sub(1), 2 => 1.min(depth), _ => rng.range(0, depth) };
+        let tail_at = match rng.below(5) { 0 => depth / 2, 1 => depth.saturating_sub(1), 2 => 1.min(depth), 3 => depth, _ => rng.range(0, depth) };
         let needs_iter = tail.contains("fail");
-        let via = if needs_iter { "iter" } else { *rng.pick(&["str", "slice", "iter"]) }.to_string();
+        let via = if needs_iter { *rng.pick(&["iter", "slice"]) } else { *rng.pick(&["str", "slice", "iter"]) }.to_string();
         let opts = (rng.chance(1, 4), rng.chance(1, 4));
-        DeepSc { shape, depth, stack_kib, tail, tail_at, via, opts }
+        // half of the random scenarios use the generic tail: any single stream fault at a position
+        // biased to the structural boundaries of the (closed) deep document
+        let (tail, fault) = if (run as usize) >= fixed.len() && !shape.ends_with("-open") && rng.chance(1, 2) {
+            let probe = DeepSc { shape: shape.clone(), depth, stack_kib, tail: "none".into(), tail_at: 0, via: via.clone(), opts, fault: None };
+            let len = probe.text().0.chars().count() as u64;
+            let open_len = len.saturating_sub(depth + 1); // closers are one character each, the leaf is one character
+            let pos = match rng.below(12) {
+                0 => 0, 1 => 1, 2 => open_len.saturating_sub(1), 3 => open_len, 4 => open_len + 1, 5 => open_len + 2, 6 => open_len + depth / 2,
+                7 => len.saturating_sub(2), 8 => len.saturating_sub(1), 9 | 10 => len, _ => rng.range(0, len),
+            };
+            let kind = *rng.pick(&["fail", "end", "flip", "insert", "drop", "fail", "insert"]);
+            let c = *rng.pick(&[']', '}', ',', ':', '[', '{', '"', 'x', ' ', '1', '\u{0}']);
+            ("generic".to_string(), Some((kind.to_string(), pos, c)))
+        } else { (tail, None) };
+        let via = if fault.as_ref().map(|f| f.0 == "fail").unwrap_or(false) && via == "str" { "iter".to_string() } else { via };
+        DeepSc { shape, depth, stack_kib, tail, tail_at, via, opts, fault }
     }
 }
 
@@ -219,7 +234,7 @@ impl Phase for C03Deep {
                 for depth in [d.depth / 16, d.depth / 4, d.depth / 2, d.depth * 3 / 4] {
                     if depth >= 1 && depth < d.depth { out.push(Scenario::Deep(DeepSc { depth, tail_at: d.tail_at.min(depth), ..d.clone() })); }
                 }
-                if d.via != "str" && !d.tail.contains("fail") { out.push(Scenario::Deep(DeepSc { via: "str".into(), ..d.clone() })); }
+                if d.via != "str" && !d.tail.contains("fail") && d.fault.is_none() && false { out.push(Scenario::Deep(DeepSc { via: "str".into(), ..d.clone() })); }
                 if d.opts != (false, false) { out.push(Scenario::Deep(DeepSc { opts: (false, false), ..d.clone() })); }
                 if d.stack_kib < 256 { out.push(Scenario::Deep(DeepSc { stack_kib: 256, ..d.clone() })); }
                 out
